@@ -120,15 +120,15 @@ fn scan(
             {
                 let mut s = sim.borrow_mut();
                 s.disk.set_cap(Some(c));
-                s.budget_ops = 10_000 + 256 * c;
-                s.budget_bytes = (1 << 20) + 256 * c;
+                s.budget_ops = 10_000 + 64 * c;
+                s.budget_bytes = (1 << 20) + 64 * c;
                 s.budget_tripped = false;
             }
             st.evaluations_override += 1;
             st.distinct.insert(mix(spec_hash, c));
             let opened = opener(c);
             if sim.borrow().budget_tripped {
-                out.push(Violation::new(prop, "hang_on_truncated_file", format!("api=read_header image={class}"), format!("cut at {c} of {len}: read_header exceeded 10000+256n stream calls")));
+                out.push(Violation::new(prop, "hang_on_truncated_file", format!("api=read_header image={class}"), format!("cut at {c} of {len}: read_header exceeded 10000+64n stream calls")));
             }
             match opened {
                 Opened::Err(_) => {}
